@@ -113,6 +113,7 @@ func c14Exec(t *testing.T, p c14Part, prefix []int, expect []string, trace bool)
 		var vs []*alert.Alert
 		var done chan struct{}
 		var left int
+		goneRefused := false // a Put under a dead context answered with an error: then the provider may hold the version before
 		if kind, ok := strings.CutPrefix(p.kind, "pre-"); ok {
 			// The first version is already stored when the dispatcher starts (process start with stored
 			// alerts, every config reload); the later ones are submitted while it loads the initial set.
@@ -133,7 +134,22 @@ func c14Exec(t *testing.T, p c14Part, prefix []int, expect []string, trace bool)
 			s.Drive()
 			time.Sleep(time.Second)
 			s.Drive() // dispatcher running, workers parked on the provider channel
-			vs = c14Versions(p.kind, time.Now())
+			// "gone-<kind>": every submission after the first comes from a client that has gone away (its request
+			// context is already cancelled when Put runs). Whatever Put does with such a call, what it stored is what
+			// the groups must hold.
+			baseKind, gone := strings.CutPrefix(p.kind, "gone-")
+			if !gone {
+				baseKind = p.kind
+			}
+			vs = c14Versions(baseKind, time.Now())
+			ctxFor := func(i int) context.Context {
+				if gone && i > 0 {
+					c, cancel := context.WithCancel(context.Background())
+					cancel()
+					return c
+				}
+				return context.Background()
+			}
 
 			s.SetBranching(true)
 			if p.kind == "writers2" {
@@ -155,8 +171,10 @@ func c14Exec(t *testing.T, p c14Part, prefix []int, expect []string, trace bool)
 						f.alerts.Put(context.Background(), vs...)
 						return
 					}
-					for _, v := range vs {
-						f.alerts.Put(context.Background(), v)
+					for i, v := range vs {
+						if err := f.alerts.Put(ctxFor(i), v); err != nil && gone {
+							goneRefused = true
+						}
 					}
 				})
 				left = s.Drive()
@@ -200,7 +218,7 @@ func c14Exec(t *testing.T, p c14Part, prefix []int, expect []string, trace bool)
 			}
 			if x.Violation == "" {
 				switch {
-				case prov != want.v:
+				case prov != want.v && !goneRefused:
 					x.Violation = "provider-not-latest"
 				case ngroups != 1 || len(copies) != 1:
 					x.Violation = "group-count"
@@ -233,6 +251,9 @@ func c14Exec(t *testing.T, p c14Part, prefix []int, expect []string, trace bool)
 			} else {
 				for _, fp := range order {
 					want := last[fp]
+					if goneRefused {
+						continue
+					}
 					if !strings.Contains(","+strings.Join(f.stage.deliveries()[0].Alerts, ",")+",", ","+want.name+":"+want.status+":"+want.v+",") {
 						x.Violation = "delivered-stale-status"
 					}
@@ -262,14 +283,16 @@ func TestVerifC14(t *testing.T) {
 		}
 		jobs = append(jobs, job{c14Part{"refresh3", 0}, 3, 0}, job{c14Part{"refresh", 4}, 3, 0}, job{c14Part{"resolve", 4}, 3, 0}, job{c14Part{"two", 0}, 3, 0}, job{c14Part{"two", 4}, 2, 0}, job{c14Part{"backlog", 0}, 2, 0},
 			job{c14Part{"pre-resolve", 0}, -1, 3}, job{c14Part{"pre-refresh3", 0}, -1, 3}, job{c14Part{"pre-refire", 1}, -1, 3},
-			job{c14Part{"batch-resolve", 0}, -1, 0}, job{c14Part{"batch-refresh", 1}, -1, 0}, job{c14Part{"batch-resolve", 4}, 3, 0}, job{c14Part{"writers2", 0}, -1, 0}, job{c14Part{"writers2", 1}, 3, 0})
+			job{c14Part{"batch-resolve", 0}, -1, 0}, job{c14Part{"batch-refresh", 1}, -1, 0}, job{c14Part{"batch-resolve", 4}, 3, 0}, job{c14Part{"writers2", 0}, -1, 0}, job{c14Part{"writers2", 1}, 3, 0},
+			job{c14Part{"gone-resolve", 0}, -1, 0}, job{c14Part{"gone-refire", 1}, -1, 0}, job{c14Part{"gone-refresh3", 0}, 3, 0})
 	} else {
 		for _, k := range []string{"refresh", "resolve", "refire"} {
 			jobs = append(jobs, job{c14Part{k, 0}, 2, 0}, job{c14Part{k, 1}, 2, 0})
 		}
 		jobs = append(jobs, job{c14Part{"refresh3", 0}, 1, 0}, job{c14Part{"refresh", 4}, 2, 0}, job{c14Part{"two", 0}, 2, 0}, job{c14Part{"backlog", 0}, 1, 0},
 			job{c14Part{"pre-resolve", 0}, -1, 2}, job{c14Part{"pre-refresh3", 1}, -1, 2},
-			job{c14Part{"batch-resolve", 0}, 2, 0}, job{c14Part{"batch-refresh", 1}, 2, 0}, job{c14Part{"writers2", 0}, 2, 0})
+			job{c14Part{"batch-resolve", 0}, 2, 0}, job{c14Part{"batch-refresh", 1}, 2, 0}, job{c14Part{"writers2", 0}, 2, 0},
+			job{c14Part{"gone-resolve", 0}, 2, 0}, job{c14Part{"gone-refire", 1}, 1, 0})
 	}
 	if rp := rep.ReplaySpec(); rp != nil {
 		part, _ := rp["part"].(string)
